@@ -12,8 +12,8 @@ func init() {
 		Exhaustive:  true,
 		Runs: []run{
 			{Test: "TestC07_Matrix"},
-			{Test: "TestC07_Sample", Quick: 400, Thorough: 4000},
-			{Test: "TestC07_Raw", Quick: 1500, Thorough: 20000, Shards: 4},
+			{Test: "TestC07_Sample", Quick: 400, Thorough: 40000},
+			{Test: "TestC07_Raw", Quick: 1500, Thorough: 200000, Shards: 4},
 		},
 	})
 }
